@@ -354,3 +354,17 @@ impl RtpsWriterProxy {
     }
   }
 } // impl
+
+// Verification hook: read-only view of the acknowledgment state.
+#[cfg(rustdds_verif)]
+impl RtpsWriterProxy {
+  /// (ack_base, keys of `changes`, received_heartbeat_count, sent_ack_nack_count)
+  pub(crate) fn verif_view(&self) -> (i64, Vec<i64>, i32, i32) {
+    (
+      i64::from(self.ack_base),
+      self.changes.keys().map(|sn| i64::from(*sn)).collect(),
+      self.received_heartbeat_count,
+      self.sent_ack_nack_count,
+    )
+  }
+}
